@@ -485,6 +485,7 @@ Proof.
   unfold spec. destruct (sx_z (sx_nth i 0)) as [|p|p]; try reflexivity.
   - unfold spec_open, spec_open_at. destruct (Nat.eqb _ 0); reflexivity.
   - do 3 (try destruct p as [p|p|]); try reflexivity.
+    + (* 7 *) unfold spec_conc, obs_conc. destruct (Z.eqb _ 0); reflexivity.
     + (* 3 *) unfold spec_sreg. cbn [blocked sx_l]. destruct (sx_l (sx_nth i 1)) as [|op t]; [reflexivity|].
       cbn [spec_sreg_ops]. destruct (Z.eqb (sx_z (sx_nth op 0)) 0); [reflexivity|].
       destruct (spec_path [] (dec_purl (sx_nth op 1))); reflexivity.
@@ -829,12 +830,207 @@ Proof.
   destruct (Z.eqb (sx_z (sx_nth st 0)) 0); cbn [b2n negb length]; split; lia.
 Qed.
 
+(* ------------------------------------------------------------------ kind 7: overlapping registrations *)
+Lemma wire_conc_s : forall ops r names, Inv r names ->
+  fst (conc_sreg r ops) = fst (spec_conc_s names (keys r) ops)
+  /\ keys (snd (conc_sreg r ops)) = snd (spec_conc_s names (keys r) ops)
+  /\ Inv (snd (conc_sreg r ops)) (names ++ ops).
+Proof.
+  induction ops as [|[n id] t IH]; intros r names HI; cbn [conc_sreg spec_conc_s fst snd].
+  - rewrite app_nil_r. repeat split; assumption.
+  - destruct (reg_code r names n id HI) as (Hc & Hk).
+    pose proof (Inv_step r names n id HI) as HI'.
+    destruct (IH _ _ HI') as (A & B & C).
+    rewrite Hc, A, B, Hk. rewrite <- app_assoc in C. cbn [app] in C. repeat split; assumption.
+Qed.
+Lemma wire_conc_e : forall ops r encs, EInv r encs ->
+  fst (conc_ereg r ops) = fst (spec_conc_e encs (keys r) ops)
+  /\ keys (snd (conc_ereg r ops)) = snd (spec_conc_e encs (keys r) ops)
+  /\ EInv (snd (conc_ereg r ops)) (encs ++ map enc_val ops).
+Proof.
+  induction ops as [|[n id] t IH]; intros r encs HI; cbn [conc_ereg spec_conc_e fst snd map].
+  - rewrite app_nil_r. repeat split; assumption.
+  - destruct (ereg_code r encs n (id, true) HI) as (Hc & Hk). cbn zeta in Hc, Hk.
+    pose proof (EInv_step r encs n (id, true) HI) as HI'.
+    destruct (IH _ _ HI') as (A & B & C). unfold spec_ereg_cls.
+    rewrite Hc, A, B, Hk. unfold enc_val at 1 2 3. cbn [fst snd].
+    rewrite <- app_assoc in C. cbn [app] in C. repeat split; assumption.
+Qed.
+Lemma wire_conc i : spec_conc i (model_conc i) = true.
+Proof.
+  unfold spec_conc, model_conc. set (ops := dec_cops (sx_nth i 2)).
+  destruct (Z.eqb (sx_z (sx_nth i 1)) 0).
+  - destruct (wire_conc_s ops sreg0 [] Inv0) as (A & B & C). rewrite sreg0_keys in A, B. cbn [app] in C.
+    rewrite A, B.
+    replace (map (fun op => look_s (snd (conc_sreg sreg0 ops)) (fst op)) ops)
+      with (map (fun op => spec_look_s ops (fst op)) ops); [apply sx_eqb_refl|].
+    apply map_ext. intros op. unfold look_s, spec_look_s. now rewrite (C (ascii_lower (fst op))).
+  - destruct (wire_conc_e ops ereg0 [] EInv0) as (A & B & C). rewrite ereg0_keys in A, B. cbn [app] in C.
+    rewrite A, B.
+    replace (map (fun op => look_e (snd (conc_ereg ereg0 ops)) (fst op)) ops)
+      with (map (fun op => spec_look_e ops (fst op)) ops); [apply sx_eqb_refl|].
+    apply map_ext. intros op. unfold look_e, spec_look_e. now rewrite (C (fst op)).
+Qed.
+
+(* Registration is atomic: in ANY sequence of register steps - hence in every interleaving
+   of any number of overlapping RegisterSink calls, each of which is one step - a key is
+   accepted at most once, a key that was taken before stays with its owner, and afterwards
+   the key belongs to the one call that was accepted. *)
+Definition skey (n : bytes) : option bytes :=
+  if is_nil n || negb (valid_scheme n) then None else Some (ascii_lower n).
+Definition ekey (n : bytes) : option bytes := if is_nil n then None else Some n.
+Definition has_key (key : bytes -> option bytes) (k : bytes) (n : bytes) : bool :=
+  match key n with Some k' => bytes_eqb k' k | None => false end.
+(* the calls designating key [k] that returned nil *)
+Fixpoint winners (key : bytes -> option bytes) (k : bytes) (ops : list (bytes * nat)) (cs : list Z) : list nat :=
+  match ops, cs with
+  | op :: t, c :: cs' =>
+      if Z.eqb c 0 && has_key key k (fst op) then snd op :: winners key k t cs' else winners key k t cs'
+  | _, _ => []
+  end.
+(* the calls designating key [k] that did not return "already registered" although they lost *)
+Fixpoint losers_ok (key : bytes -> option bytes) (k : bytes) (ops : list (bytes * nat)) (cs : list Z) : bool :=
+  match ops, cs with
+  | op :: t, c :: cs' =>
+      (if has_key key k (fst op) then Z.eqb c 0 || Z.eqb c 3 else true) && losers_ok key k t cs'
+  | [], [] => true
+  | _, _ => false
+  end.
+
+Lemma conc_sreg_atomic : forall ops r k,
+  let res := conc_sreg r ops in
+  losers_ok skey k ops (fst res) = true /\
+  match lookup r k with
+  | Some v => winners skey k ops (fst res) = [] /\ lookup (snd res) k = Some v
+  | None => (winners skey k ops (fst res) = [] /\ lookup (snd res) k = None
+             /\ Forall (fun op => has_key skey k (fst op) = false) ops)
+            \/ exists id, winners skey k ops (fst res) = [id] /\ lookup (snd res) k = Some id
+  end.
+Proof.
+  induction ops as [|[n id] t IH]; intros r k; cbn zeta; cbn [conc_sreg winners losers_ok fst snd].
+  - split; [reflexivity|]. destruct (lookup r k); [split; reflexivity|left; repeat split; constructor].
+  - pose proof (register_spec r n id) as S. destruct (register r n id) as [c r'] eqn:Er. cbn [fst snd].
+    destruct S as (_ & Hemp & Hinv & Hdup & Hok & Hrej & Hacc).
+    specialize (IH r' k). cbn zeta in IH. destruct IH as [IHl IH].
+    assert (K : has_key skey k n = true -> c = ROk \/ c = RErrDup).
+    { unfold has_key, skey. destruct (is_nil n) eqn:En; [discriminate|]. apply is_nil_false in En.
+      destruct (valid_scheme n) eqn:Ev; [|discriminate]. cbn [orb negb]. intros _.
+      destruct (lookup r (ascii_lower n)) eqn:El.
+      - right. apply Hdup; congruence.
+      - left. apply Hok. repeat split; assumption. }
+    assert (K2 : has_key skey k n = true -> lookup r k = None -> c = ROk).
+    { unfold has_key, skey. destruct (is_nil n) eqn:En; [discriminate|]. apply is_nil_false in En.
+      destruct (valid_scheme n) eqn:Ev; [|discriminate]. cbn [orb negb]. intros Hk Hl.
+      apply bytes_eqb_eq in Hk. subst k. apply Hok. repeat split; assumption. }
+    split.
+    { rewrite IHl, andb_true_r. destruct (has_key skey k n); [|reflexivity].
+      destruct (K eq_refl) as [-> | ->]; reflexivity. }
+    destruct c.
+    1, 3, 4, 5: (assert (E : r' = r) by (apply Hrej; discriminate); subst r'; cbn [rres_code Z.eqb andb];
+      destruct (lookup r k) eqn:El; [exact IH|]; destruct IH as [(W & L & F)|IH]; [left|right; exact IH];
+      repeat split; try assumption; constructor; [|exact F]; cbn [fst];
+      destruct (has_key skey k n) eqn:Eh; [|reflexivity]; discriminate (K2 eq_refl eq_refl)).
+    (* accepted *)
+    destruct (proj1 Hok eq_refl) as (Hn & Hv & Hl). pose proof (Hacc eq_refl) as E; subst r'.
+    cbn [rres_code Z.eqb andb]. apply is_nil_false in Hn.
+    assert (Hh : has_key skey k n = bytes_eqb (ascii_lower n) k)
+      by (unfold has_key, skey; rewrite Hn, Hv; reflexivity).
+    rewrite Hh.
+    rewrite lookup_app in IH. cbn [lookup] in IH.
+    destruct (bytes_eqb (ascii_lower n) k) eqn:Ek.
+    + apply bytes_eqb_eq in Ek. subst k. rewrite Hl in *. destruct IH as [W L].
+      right. exists id. rewrite W. split; [reflexivity|exact L].
+    + destruct (lookup r k) eqn:El; [exact IH|].
+      destruct IH as [(W & L & F)|IH]; [left|right; exact IH].
+      repeat split; try assumption. constructor; [|exact F]. cbn [fst]. exact Hh.
+Qed.
+
+Lemma conc_ereg_atomic : forall ops r k,
+  let res := conc_ereg r ops in
+  losers_ok ekey k ops (fst res) = true /\
+  match lookup r k with
+  | Some v => winners ekey k ops (fst res) = [] /\ lookup (snd res) k = Some v
+  | None => (winners ekey k ops (fst res) = [] /\ lookup (snd res) k = None
+             /\ Forall (fun op => has_key ekey k (fst op) = false) ops)
+            \/ exists id, winners ekey k ops (fst res) = [id] /\ lookup (snd res) k = Some (id, true)
+  end.
+Proof.
+  induction ops as [|[n id] t IH]; intros r k; cbn zeta; cbn [conc_ereg winners losers_ok fst snd].
+  - split; [reflexivity|]. destruct (lookup r k); [split; reflexivity|left; repeat split; constructor].
+  - pose proof (register_enc_spec r n (id, true)) as S. destruct (register_enc r n (id, true)) as [c r'] eqn:Er. cbn [fst snd].
+    destruct S as (Hok & Hemp & Hdup & Hrej & Hacc).
+    specialize (IH r' k). cbn zeta in IH. destruct IH as [IHl IH].
+    assert (K : has_key ekey k n = true -> c = ROk \/ c = RErrDup).
+    { unfold has_key, ekey. destruct (is_nil n) eqn:En; [discriminate|]. apply is_nil_false in En. intros _.
+      destruct (lookup r n) eqn:El.
+      - right. apply Hdup; congruence.
+      - left. apply Hok. split; auto. }
+    assert (K2 : has_key ekey k n = true -> lookup r k = None -> c = ROk).
+    { unfold has_key, ekey. destruct (is_nil n) eqn:En; [discriminate|]. apply is_nil_false in En.
+      intros Hk Hl. apply bytes_eqb_eq in Hk. subst k. apply Hok. split; assumption. }
+    split.
+    { rewrite IHl, andb_true_r. destruct (has_key ekey k n); [|reflexivity].
+      destruct (K eq_refl) as [-> | ->]; reflexivity. }
+    destruct c.
+    1, 3, 4, 5: (assert (E : r' = r) by (apply Hrej; discriminate); subst r'; cbn [rres_code Z.eqb andb];
+      destruct (lookup r k) eqn:El; [exact IH|]; destruct IH as [(W & L & F)|IH]; [left|right; exact IH];
+      repeat split; try assumption; constructor; [|exact F]; cbn [fst];
+      destruct (has_key ekey k n) eqn:Eh; [|reflexivity]; discriminate (K2 eq_refl eq_refl)).
+    destruct (proj1 Hok eq_refl) as (Hn & Hl). pose proof (Hacc eq_refl) as E; subst r'.
+    cbn [rres_code Z.eqb andb]. apply is_nil_false in Hn.
+    assert (Hh : has_key ekey k n = bytes_eqb n k)
+      by (unfold has_key, ekey; rewrite Hn; reflexivity).
+    rewrite Hh.
+    rewrite lookup_app in IH. cbn [lookup] in IH.
+    destruct (bytes_eqb n k) eqn:Ek.
+    + apply bytes_eqb_eq in Ek. subst k. rewrite Hl in *. destruct IH as [W L].
+      right. exists id. rewrite W. split; [reflexivity|exact L].
+    + destruct (lookup r k) eqn:El; [exact IH|].
+      destruct IH as [(W & L & F)|IH]; [left|right; exact IH].
+      repeat split; try assumption. constructor; [|exact F]. cbn [fst]. exact Hh.
+Qed.
+
+(* what the oracle accepts for overlapping RegisterSink / RegisterEncoder calls: the codes
+   returned, whatever else was observed, have at most one nil per key and nothing but nil /
+   "already registered" for a call that designates a key *)
+Lemma conc_accepted i o : sx_z (sx_nth i 0) = 7%Z -> spec i o = true ->
+  let ops := dec_cops (sx_nth i 2) in
+  exists codes looks ks, o = obs_conc codes looks ks /\ length codes = length ops /\
+    forall k,
+      if Z.eqb (sx_z (sx_nth i 1)) 0
+      then length (winners skey k ops codes) <= 1 /\ losers_ok skey k ops codes = true
+      else length (winners ekey k ops codes) <= 1 /\ losers_ok ekey k ops codes = true.
+Proof.
+  intros H7 H. unfold spec in H. rewrite H7 in H. unfold spec_conc in H. cbn zeta.
+  set (ops := dec_cops (sx_nth i 2)) in *.
+  assert (Ls : forall ops r, length (fst (conc_sreg r ops)) = length ops).
+  { induction ops0 as [|op t IH]; intros r; cbn [conc_sreg fst length]; [reflexivity|]. now rewrite IH. }
+  assert (Le : forall ops r, length (fst (conc_ereg r ops)) = length ops).
+  { induction ops0 as [|op t IH]; intros r; cbn [conc_ereg fst length]; [reflexivity|]. now rewrite IH. }
+  destruct (Z.eqb (sx_z (sx_nth i 1)) 0).
+  - apply sx_eqb_eq in H. eexists _, _, _. split; [exact H|].
+    destruct (wire_conc_s ops sreg0 [] Inv0) as (A & _ & _). rewrite sreg0_keys in A. rewrite <- A.
+    split; [apply Ls|]. intros k.
+    destruct (conc_sreg_atomic ops sreg0 k) as [Lo W]. split; [|exact Lo].
+    destruct (lookup sreg0 k).
+    + destruct W as [-> _]. cbn. lia.
+    + destruct W as [(-> & _)|(id & -> & _)]; cbn; lia.
+  - apply sx_eqb_eq in H. eexists _, _, _. split; [exact H|].
+    destruct (wire_conc_e ops ereg0 [] EInv0) as (A & _ & _). rewrite ereg0_keys in A. rewrite <- A.
+    split; [apply Le|]. intros k.
+    destruct (conc_ereg_atomic ops ereg0 k) as [Lo W]. split; [|exact Lo].
+    destruct (lookup ereg0 k).
+    + destruct W as [-> _]. cbn. lia.
+    + destruct W as [(-> & _)|(id & -> & _)]; cbn; lia.
+Qed.
+
 (* ------------------------------------------------------------------ all kinds *)
 Lemma spec_model i : wf i = true -> spec i (model i) = true.
 Proof.
   intros Hwf. unfold wf, model, spec in *.
   destruct (sx_z (sx_nth i 0)) as [|p|p]; [apply wire_open, Hwf| |discriminate].
   do 3 (try destruct p as [p|p|]); try discriminate.
+  - (* 7 *) apply wire_conc.
   - (* 5 *) unfold spec_mix, model_mix. cbn [sx_l].
     assert (B : is_blocked (SL (model_mix_ops sreg0 ereg0 2 (sx_l (sx_nth i 1)))) = false).
     { destruct (sx_l (sx_nth i 1)) as [|op t]; [reflexivity|].
